@@ -27,8 +27,12 @@ type Solver struct {
 	Unknown   int
 	Errors    int
 	WallMs    float64
+	GetValMs  float64
+	GetVals   int
 	timeoutMs int
 	name      string
+	aliases   map[int]*Term
+	lamMemo   map[int]bool
 }
 
 func NewSolver(tb *TB, bin string, args []string, logPath string) (*Solver, error) {
@@ -165,9 +169,41 @@ func (r Result) String() string { return [...]string{"unsat", "sat", "unknown"}[
 // Check asks whether the conjunction of conds is satisfiable. If keep is true and the
 // answer is sat, the solver context is left pushed so that GetValues can be called;
 // the caller must then call Pop.
+// hasLambda reports whether t contains a lambda-defined array (z3 refuses get-value on such terms).
+func (s *Solver) hasLambda(t *Term) bool {
+	if s.lamMemo == nil {
+		s.lamMemo = map[int]bool{}
+	}
+	if v, ok := s.lamMemo[t.id]; ok {
+		return v
+	}
+	r := t.op == ORaw && strings.HasPrefix(t.name, "(lambda")
+	if !r {
+		for _, a := range t.args {
+			if s.hasLambda(a) {
+				r = true
+				break
+			}
+		}
+	}
+	s.lamMemo[t.id] = r
+	return r
+}
+
 func (s *Solver) Check(conds []*Term, timeoutMs int, keep bool, want ...*Term) Result {
+	s.aliases = nil
 	for _, w := range want {
 		s.pr.Define(w)
+		if w.op != OConst && w.op != OVar && s.hasLambda(w) {
+			// read the value through a fresh constant constrained equal to the term
+			a := s.tb.Fresh("gv", w.sort)
+			s.pr.Define(a)
+			if s.aliases == nil {
+				s.aliases = map[int]*Term{}
+			}
+			s.aliases[w.id] = a
+			conds = append(append([]*Term(nil), conds...), s.tb.Eq(a, w))
+		}
 	}
 	for _, c := range conds {
 		if c.IsFalse() {
@@ -255,12 +291,18 @@ func (s *Solver) GetValues(ts []*Term) ([]uint64, error) {
 	var sb strings.Builder
 	sb.WriteString("(get-value (")
 	for _, t := range ts {
+		if a, ok := s.aliases[t.id]; ok {
+			t = a
+		}
 		sb.WriteString(s.simpleRef(t))
 		sb.WriteString(" ")
 	}
 	sb.WriteString("))\n")
+	t0 := time.Now()
 	s.send(sb.String())
 	resp := s.readSexp()
+	s.GetValMs += float64(time.Since(t0).Microseconds()) / 1000
+	s.GetVals++
 	if strings.HasPrefix(resp, "(error") {
 		return nil, fmt.Errorf("get-value: %s", resp)
 	}
